@@ -125,6 +125,23 @@ StepA(st, cx, c) ==
   ELSE IF cx.inTx THEN [st |-> st, cx |-> [cx EXCEPT !.q = Append(cx.q, c)], r |-> QUEUED]
   ELSE LET r == Do(c, st, 0) IN [st |-> r.s, cx |-> cx, r |-> r.r]
 
+(* the executor's own EXEC (simulator path, no wire) answers a failed WATCH with a nil bulk where the *)
+(* connection writes a nil array: both are "nil" - accepted for executor-level cases only              *)
+Lvl(c) == IF "level" \in DOMAIN c THEN c.level ELSE "connection"
+ReplyOkL(lvl, exp, got) == ReplyOk(exp, got) \/ (lvl = "executor" /\ exp.t = "nullarray" /\ got.t = "nullbulk")
+RECURSIVE TxnFoldL(_, _, _, _, _)
+TxnFoldL(lvl, steps, i, st, cx) ==
+  IF i > Len(steps) THEN [ok |-> "", s |-> st]
+  ELSE LET s == steps[i] IN
+       IF s.who = "B" THEN
+            LET r == Do(s.c, st, 0) IN
+            IF ~ReplyOk(r.r, s.r) THEN [ok |-> "client B: reply differs from the model", s |-> st]
+            ELSE TxnFoldL(lvl, steps, i + 1, r.s, cx)
+       ELSE LET x == StepA(st, cx, s.c) IN
+            IF ~ReplyOkL(lvl, x.r, s.r) THEN
+                 [ok |-> (IF s.c.op = "EXEC" THEN "EXEC result differs from running the queued commands in order (or from the abort rule)"
+                          ELSE "transaction client: reply differs from the model"), s |-> st]
+            ELSE TxnFoldL(lvl, steps, i + 1, x.st, x.cx)
 RECURSIVE TxnFold(_, _, _, _)
 TxnFold(steps, i, st, cx) ==   \* "" when every step matches, else a message
   IF i > Len(steps) THEN [ok |-> "", s |-> st]
@@ -140,7 +157,7 @@ TxnFold(steps, i, st, cx) ==   \* "" when every step matches, else a message
             ELSE TxnFold(steps, i + 1, x.st, x.cx)
 TxnVerdict(c) ==
   IF "panic" \in DOMAIN c THEN "connection handler panicked"
-  ELSE LET f == TxnFold(c.steps, 1, Empty, Cx0) IN
+  ELSE LET f == TxnFoldL(Lvl(c), c.steps, 1, Empty, Cx0) IN
        IF f.ok # "" THEN f.ok
        ELSE IF ~StateEq(f.s, JState(c.s)) THEN "keyspace after the script differs from the model (an aborted or discarded transaction left effects, or EXEC did not apply everything)"
        ELSE "ok"
